@@ -240,7 +240,11 @@ def check(text, dialect, cfg):
         return out
 
     # line ends: outside quoted strings only the configured newline may occur
-    quoted_spans = [(t.pos, t.end) for t in toks if t.kind == "quoted"]
+    # string content is user data; so is the inside of a units expression for PVL and
+    # ISIS (any characters), but not for ODL/PDS3, whose units are identifiers and
+    # operators and whose line ends the property fixes as CR LF
+    user_kinds = ("quoted",) if dialect in ("ODL", "PDS3") else ("quoted", "units")
+    quoted_spans = [(t.pos, t.end) for t in toks if t.kind in user_kinds]
     masked = list(text)
     user_newlines = 0
     for a, b in quoted_spans:
